@@ -6,7 +6,7 @@ HOOKS = {"guard": "verif",
          "source_commits": [], "add_only": True}
 ENGINES = [
     {"name": "tlc", "path": "/verif/spec", "kind_free_text": "TLA+ specification (WitnessCore, Witness, ...) checked, used as generator (every transition emitted as JSON) and as judge of recorded traces (Trace_*.tla) by TLC 1.8.0",
-     "serves_properties": ["C01", "C02", "C03", "C04", "C05", "C06", "C07", "C08", "C09", "C10", "C11", "C12", "C13", "C14", "C15", "C16", "C17", "C18", "C20"]},
+     "serves_properties": ["C01", "C02", "C03", "C04", "C05", "C06", "C07", "C08", "C09", "C10", "C11", "C12", "C13", "C14", "C15", "C16", "C17", "C18", "C19", "C20"]},
     {"name": "driver", "path": "/verif/harness", "kind_free_text": "Go harness (own module with replace => /repo): concretiser, independent RFC 6962 / signed-note reference, drivers that execute TLC-generated behaviours against the real code and record ndjson observations",
      "serves_properties": ["C01", "C02", "C03", "C04", "C08", "C09", "C12", "C16", "C20"]},
 ]
@@ -72,5 +72,9 @@ CHECKS = {
             "text": "TLC evaluates TilePath.tla on levels 0..7 x every carry boundary of the path encoding (+ seeded indices up to 10^9) x widths; the real SumDB client's requests must equal the specified path and tlog.Tile.Path() and be parsed back by the reference; the real sumdb feeder builds proofs for ALL pairs 1 <= from < to <= 300 (thorough 1200) plus samples to 2^20 against a stub SumDB in front of the real witness; TLC (Trace_Tile) requires acceptance by the independent verifier and the witness.",
             "note": "Indices are sampled with every carry boundary included; the stub SumDB is x/mod's reference server over a generated tree.",
             "technique": "TLC evaluation of TilePath.tla + replay into the real SumDB client / feeder + TLC trace validation"},
+    "C19": {"engine": "tlc", "level": "exploration", "design_ref": "DESIGN.md section 5 C19",
+            "text": "Totality.tla (no Panic / Hang action; TLC-checked) enumerates the hostile-server menu; every scenario runs one real feed cycle of the real sumdb / tiles / pixel / rekor / serverless feeder in a child process under a watchdog; seeded random and mutated bytes go to parseBody and Proof.Unmarshal; TLC-emitted endpoint requests of every class plus seeded byte-level mutations go to the real handler; TLC (Trace_Total, Trace_Bastion) accepts only result / error / documented statuses. Exploration level: byte-level diversity comes from generators.",
+            "note": "A hang is reported only after two attempts (20 s and 40 s against a 1.2 s cycle context). Input bytes are sampled (seeded).",
+            "technique": "TLC enumeration of the hostile-input menu of Totality.tla + execution against the real feeders, parsers and endpoint under a watchdog + TLC trace validation"},
     "C20": seq("Decision-table transitions and random multi-log histories executed in a dedicated process with a recording MetricFactory; TLC evaluates CountersTrue on counters read after every step.", "DESIGN.md section 5 C20"),
 }
